@@ -256,6 +256,7 @@ func (c *LocalActionsCache) FindMetadata(spec string) (*ActionMetadata, bool, er
 			return m, true, nil // Another goroutine already found (and reported) it
 		}
 		msg := strings.ReplaceAll(err.Error(), "\n", " ")
+		msg = strings.NewReplacer("\r", " ", "\u2028", " ", "\u2029", " ").Replace(msg) // YAML errors echo scalar values, which can contain other line breaks
 		return nil, false, fmt.Errorf("could not parse action metadata in %q: %s", dir, msg)
 	}
 	meta.file = f
